@@ -59,8 +59,9 @@ type RunSpec struct {
 	Seed     uint64   `json:"seed"`    // the run seed everything here was derived from
 	InitSeed uint64   `json:"init_seed"`
 	Env      []string `json:"env"`
-	AbsPaths bool     `json:"abs_paths,omitempty"` // destination paths made absolute (inside the run dir)
-	Uid      int      `json:"uid,omitempty"`       // run the worker as this user (setpriv)
+	AbsPaths bool     `json:"abs_paths,omitempty"`     // destination paths made absolute (inside the run dir)
+	Uid      int      `json:"uid,omitempty"`           // run the worker as this user (setpriv)
+	Shell    string   `json:"shell_prelude,omitempty"` // sh -c prelude run before exec of the worker: umask, closed stdout, descriptor limit
 	Script   Script   `json:"script"`
 	ProgKeys []string `json:"prog_keys"` // content hash of each script source
 }
@@ -168,6 +169,8 @@ var destNames = []string{"o.bin", "out.obj", "a", "x.img", "naskfunc.obj", "ipl.
 var tzs = []string{"UTC", "Asia/Tokyo", "America/New_York", "Pacific/Kiritimati", ""}
 var langs = []string{"C", "ja_JP.UTF-8", "en_US.UTF-8", "", "ja_JP.SJIS", "ja_JP.eucJP", "de_DE.ISO-8859-1", "tr_TR.UTF-8"}
 
+var shellPreludes = []string{"", "", "", "umask 077", "umask 000", "umask 027", "exec >&-", "exec 2>&-", "exec </dev/null >/dev/null", "ulimit -n 64", "ulimit -s 65536", "cd . "}
+
 func drawProcEnv(r *RNG, native bool) []string {
 	var env []string
 	if tz := pick(r, tzs); tz != "" {
@@ -210,11 +213,22 @@ func refSpec(variant string, pp *PoolProg, seed uint64) *RunSpec {
 	if r.Chance(1, 4) {
 		spec.Uid = 65534
 	}
+	spec.Shell = pick(r, shellPreludes)
 	sc := Script{Sources: []string{base64.StdEncoding.EncodeToString(pp.Src)}, Paths: []string{pick(r, destNames)}, Sim: variant == "sim"}
 	if variant == "sim" {
 		sc.Ops = append(sc.Ops, Op{Op: "clock", Ns: int64(r.U64() % uint64(200*365*24*time.Hour))})
 	}
 	sc.Ops = append(sc.Ops, Op{Op: "logcfg", Kind: pick(r, []string{"discard", "std", "info", "debug"})})
+	switch r.Intn(8) {
+	case 0: // destination is a symbolic link to a (longer) stale file
+		sc.Paths = append(sc.Paths, "link_target.bin")
+		sc.Ops = append(sc.Ops, Op{Op: "prefill", D: 1, Kind: "gen", Len: 5000, Ent: r.U64()}, Op{Op: "prefill", D: 0, Kind: "symlink", From: 1})
+	case 1: // destination has a second hard link
+		sc.Paths = append(sc.Paths, "other_name.bin")
+		sc.Ops = append(sc.Ops, Op{Op: "prefill", D: 1, Kind: "gen", Len: 300, Ent: r.U64()}, Op{Op: "prefill", D: 0, Kind: "hardlink", From: 1})
+	case 2: // destination exists without write permission for group/others, or read-only for a privileged caller
+		sc.Ops = append(sc.Ops, Op{Op: "prefill", D: 0, Kind: "gen", Len: 100, Ent: r.U64()})
+	}
 	sc.Ops = append(sc.Ops, Op{Op: "parse", P: 0, T: 0, Ent: r.U64()})
 	sc.Ops = append(sc.Ops, Op{Op: "exec", T: 0, D: 0, Ent: r.U64()})
 	spec.Script = sc
@@ -304,6 +318,7 @@ func evalHistory(spec *RunSpec, res *RunResult, F map[string]*RefOutcome, classe
 	for i := range files {
 		files[i] = fileState{known: true, absent: true}
 	}
+	alias := map[int]int{} // path index -> path index it is linked to
 	lastExecClass := ""
 	lastExecKey := ""
 	perturbSinceExec := false
@@ -388,6 +403,9 @@ func evalHistory(spec *RunSpec, res *RunResult, F map[string]*RefOutcome, classe
 					Expected: exp, Observed: obs}, st
 			}
 			files[op.D] = fileState{known: true, sha: j.Sha, n: j.Len}
+			if a, ok := alias[op.D]; ok {
+				files[a] = files[op.D] // the image landed in the linked file
+			}
 			lastExecClass, lastExecKey = cls, key
 			perturbSinceExec, gcSinceExec = false, false
 		case "prefill":
@@ -406,6 +424,9 @@ func evalHistory(spec *RunSpec, res *RunResult, F map[string]*RefOutcome, classe
 			case "gen":
 				b := genGarbage(op.Ent, op.Len)
 				files[op.D] = fileState{known: true, sha: shaHex(b), n: len(b)}
+			case "symlink", "hardlink": // D now names the same file as From
+				files[op.D] = files[op.From]
+				alias[op.D] = op.From
 			case "copy":
 				files[op.D] = files[op.From]
 				if files[op.From].absent {
@@ -456,7 +477,7 @@ var longHistories = false
 
 func genHistory(seed uint64, variant string, pool []*PoolProg, admitted []int) *RunSpec {
 	r := NewRNG(seed)
-	long := longHistories && r.Chance(1, 12)
+	long := (longHistories && r.Chance(1, 8)) || (!longHistories && r.Chance(1, 12)) || os.Getenv("VERIF_C10_ALL_LONG") != ""
 	if long {
 		var small []int
 		for _, ix := range admitted {
@@ -477,8 +498,14 @@ func genHistory(seed uint64, variant string, pool []*PoolProg, admitted []int) *
 	if r.Chance(1, 8) {
 		spec.Uid = 65534
 	}
+	if r.Chance(1, 3) {
+		spec.Shell = pick(r, shellPreludes)
+	}
 	// program selection: 3..8, twins together when possible
 	want := r.Range(3, 8)
+	if long {
+		want = r.Range(10, 24) // many different programs: many distinct instruction forms in one process
+	}
 	if want > len(admitted) {
 		want = len(admitted)
 	}
@@ -536,6 +563,10 @@ func genHistory(seed uint64, variant string, pool []*PoolProg, admitted []int) *
 		pPrefill: pick(r, []int{0, 30, 60, 90}), clockScale: r.Intn(5), nops: pick(r, []int{4, 8, 15, 25, 40})}
 	if long {
 		k.nops = pick(r, []int{120, 200, 400})
+		if !longHistories {
+			k.nops = pick(r, []int{100, 160})
+		}
+		k.wParse += 2
 		k.wExec, k.wReexec = k.wExec+2, k.wReexec+1
 	}
 	if !sim {
@@ -850,6 +881,9 @@ func (c *simCtx) runSpecKeep(spec *RunSpec, before func(dir string, sc *Script))
 	env := baseEnv("VERIFSIM_SCRIPT="+sp, "VERIFSIM_JOURNAL="+jp, fmt.Sprintf("VERIFSIM_INIT_SEED=%d", spec.InitSeed))
 	env = append(env, spec.Env...)
 	argv := []string{bin, "-test.run=^TestWorker$", "-test.timeout=0", "-test.count=1"}
+	if spec.Shell != "" {
+		argv = []string{"/bin/sh", "-c", spec.Shell + `; exec "$@"`, "sh", bin, "-test.run=^TestWorker$", "-test.timeout=0", "-test.count=1"}
+	}
 	if spec.Uid != 0 {
 		os.Chmod(dir, 0777)
 		argv = append([]string{"setpriv", fmt.Sprintf("--reuid=%d", spec.Uid), fmt.Sprintf("--regid=%d", spec.Uid), "--clear-groups"}, argv...)
